@@ -1356,7 +1356,23 @@ pub fn cli(args: &[String]) -> i32 {
     }
 }
 
+/// listed known findings (/verif/known_findings.json, read-only): property, oracle tag and a detail
+/// substring must all match
+fn known_finding(v: &Viol) -> Option<String> {
+    let p = std::env::var("VERIF_KNOWN").unwrap_or("/verif/known_findings.json".into());
+    let text = std::fs::read_to_string(p).ok()?;
+    let j: serde_json::Value = serde_json::from_str(&text).ok()?;
+    for f in j.get("findings")?.as_array()? {
+        let g = |k: &str| f.get(k).and_then(|x| x.as_str()).unwrap_or("");
+        if g("property") == v.prop && g("tag") == v.tag && !g("detail_contains").is_empty() && v.detail.contains(g("detail_contains")) {
+            return Some(g("what").to_string());
+        }
+    }
+    None
+}
+
 fn explore(prop: &str, tier: &str, execs: u64, max_secs: u64, threads: usize, status_dir: Option<String>, only: Option<u64>) -> i32 {
+    let known = Mutex::new(std::collections::BTreeSet::<String>::new());
     let seed = std::env::var("VERIF_SEED").ok().and_then(|s| s.parse().ok()).unwrap_or(20260922u64);
     let thorough = tier == "thorough";
     PROP.with(|p| *p.borrow_mut() = prop.to_string());
@@ -1444,6 +1460,12 @@ fn explore(prop: &str, tier: &str, execs: u64, max_secs: u64, threads: usize, st
                 if e < 2 {
                     samples.lock().unwrap().push(json!({"exec": e, "plan": plan}));
                 }
+                if let Some(v) = r.viols.first()
+                    && let Some(k) = known_finding(v)
+                {
+                    known.lock().unwrap().insert(format!("KNOWN-FINDING: property={} {}", v.prop, k));
+                    continue;
+                }
                 if let Some(v) = r.viols.first() {
                     if v.prop == "HARNESS" {
                         harness.lock().unwrap().push(format!("exec {e}: {}", v.detail));
@@ -1460,6 +1482,9 @@ fn explore(prop: &str, tier: &str, execs: u64, max_secs: u64, threads: usize, st
             });
         }
     });
+    for k in known.into_inner().unwrap() {
+        println!("{k}");
+    }
     let a = agg.into_inner().unwrap();
     let distinct = hashes.into_inner().unwrap().len() as u64;
     let mut found = found.into_inner().unwrap();
